@@ -93,29 +93,6 @@ func reqOf(call int) map[string]any { return map[string]any{"$req": call} }
 func (g *gen) pptCase() (map[string]any, []any) {
 	r := g.r
 	d := map[string]any{}
-	if g.prop == "C16" {
-		// guard (known finding F15): only PPT traffic a well-behaved peer could send
-		good := wamp.List{int64(g.marker()), "a"}
-		g.tag("ppt-wellformed")
-		switch r.Intn(3) {
-		case 0:
-			d["ppt_scheme"] = hcommon.Pick(r, []string{"mqtt", "x_custom"})
-			return d, []any{map[string]any{"$payload": map[string]any{"nil": false, "args": canonList(good), "kw": map[string]any{}}}}
-		case 1:
-			ser := hcommon.Pick(r, []string{"json", "msgpack", "cbor"})
-			d["ppt_scheme"] = "mqtt"
-			d["ppt_serializer"] = ser
-			b := encodePayload(ser, good)
-			g.sc.Cfg.Deser = append(g.sc.Cfg.Deser, deserOf(ser, b))
-			return d, []any{binV(b)}
-		default:
-			d["ppt_scheme"] = "wamp"
-			d["ppt_serializer"] = "cbor"
-			b := encodePayload("cbor", good)
-			g.sc.Cfg.Deser = append(g.sc.Cfg.Deser, deserOf("cbor", b))
-			return d, []any{binV(b)}
-		}
-	}
 	switch r.Intn(8) {
 	case 0, 1:
 		d["ppt_scheme"] = "mqtt"
@@ -206,8 +183,7 @@ func (g *gen) replyDelay() int {
 		return 0 // same instant as the request
 	case x < 13:
 		return to - 1
-	case (x < 14 || (hostile && x < 16)) && g.prop != "C16":
-		// guard (known finding F16): not under C16
+	case x < 14 || (hostile && x < 16):
 		g.tag("reply-at-timeout")
 		return to
 	case x < 17:
@@ -230,12 +206,9 @@ func (g *gen) threadSubscribe(t int) int {
 		d := g.replyDelay()
 		g.router(t+d, 33.0, reqOf(c), float64(sub))
 		end = t + d
-		if r.Chance(1, 6) && !(g.prop == "C16" && g.lagging()) {
+		if r.Chance(1, 6) {
 			g.tag("dup-reply")
 			dd := hcommon.Pick(r, []int{0, 0, 1, 3})
-			if g.prop == "C16" {
-				dd = hcommon.Pick(r, []int{1, 3}) // guard (F16): never back to back
-			}
 			g.router(t+d+dd, 33.0, reqOf(c), float64(sub))
 			end += dd
 		}
@@ -324,22 +297,19 @@ func (g *gen) threadCall(t int) int {
 	prog := r.Chance(1, 2)
 	g.add(Stim{T: t, Stim: "api", G: c, Op: "call", Name: name, Prog: prog})
 	cur := t + 1 + r.Intn(4)
-	// progressive results (guard F16 under C16: with a lagging loop and no progress handler the
-	// first would be final and the others duplicates queued behind it)
-	if r.Chance(1, 2) && !(g.prop == "C16" && g.lagging() && !prog) {
+	// progressive results (without a progress handler the first one is final and the rest are
+	// duplicate replies)
+	if r.Chance(1, 2) {
 		g.tag("progressive")
 		for i, n := 0, 1+r.Intn(3); i < n; i++ {
 			g.router(cur, 50.0, reqOf(c), map[string]any{"progress": true}, []any{float64(g.marker())}, map[string]any{})
 			cur += r.Intn(3)
-			if g.prop == "C16" && !prog {
-				cur++ // guard (F16): without a progress handler the first one is final, the rest are duplicates
-			}
 		}
 	}
 	cancelAt := -1
-	// (guard F43 under C16: a waiter kept busy by a slow progress handler may notice its context
-	// only after Close() has closed the send channel, and then send CANCEL on it)
-	if (r.Chance(2, 5) || g.prop == "C16" && r.Chance(1, 3)) && !(g.prop == "C16" && prog && g.sc.Cfg.ProgDelay > 0) {
+	// (guard F43: a waiter kept busy by a slow progress handler may notice its context only after
+	// Close() has closed the send channel, and then send CANCEL on it)
+	if (r.Chance(2, 5) || g.prop == "C16" && r.Chance(1, 3)) && !(prog && g.sc.Cfg.ProgDelay > 0) {
 		cancelAt = cur + r.Intn(6)
 		kind := hcommon.Pick(r, []string{"canceled", "deadline"})
 		g.add(Stim{T: cancelAt, Stim: "cancel", G: c, Kind: kind})
@@ -363,13 +333,9 @@ func (g *gen) threadCall(t int) int {
 	if cancelAt < 0 {
 		at := cur + 1 + r.Intn(5)
 		final(at)
-		if r.Chance(1, 8) && !(g.prop == "C16" && g.lagging()) {
+		if r.Chance(1, 8) {
 			g.tag("dup-reply")
-			if g.prop == "C16" {
-				final(at + 1 + r.Intn(2)) // guard (F16)
-			} else {
-				final(at + r.Intn(2))
-			}
+			final(at + r.Intn(2))
 		}
 		return at + 1
 	}
@@ -385,7 +351,7 @@ func (g *gen) threadCall(t int) int {
 	case x < 6:
 		g.tag("reply-at-cancel")
 		final(cancelAt)
-	case x < 7 && g.prop != "C16":
+	case x < 7:
 		g.tag("reply-at-timeout")
 		g.router(cancelAt+to, 8.0, 48.0, reqOf(c), map[string]any{}, "wamp.error.canceled")
 	case x < 8:
@@ -520,25 +486,18 @@ func (g *gen) hostile(t int) {
 	}
 }
 
-// lagging: application handlers take time, so the receive loop can fall behind and find two
-// messages sent apart queued together (guard for F16 under C16).
+// lagging: application handlers take time, so the receive loop can fall behind its script.
 func (g *gen) lagging() bool { return g.sc.Cfg.EventDelay > 0 || g.sc.Cfg.ProgDelay > 0 }
 
-// strayID: an id for a stray reply. Under C17 it may hit a request in flight (and then double
-// its real reply); under C16 it never does (guard, known finding F16).
-func (g *gen) strayID() int {
-	if g.prop == "C16" {
-		return 5000 + g.r.Intn(9)
-	}
-	return g.r.Intn(6)
-}
+// strayID: an id for a stray reply; it may hit a request in flight (and then double its real reply).
+func (g *gen) strayID() int { return g.r.Intn(6) }
 
 // generate builds scenario idx of the run.
 func generate(seed int64, idx int, prop string) Scenario {
 	r := hcommon.NewRNG(seed*1000003 + int64(idx))
 	sc := Scenario{ID: idx}
 	sc.Cfg = Cfg{Timeout: hcommon.Pick(r, []int{40, 100, 1000}), CancelMode: hcommon.Pick(r, []string{"", "kill", "killnowait", "skip"}),
-		DealerPPT: r.Chance(3, 4) || prop == "C16", GoodbyeReply: hcommon.Pick(r, []int{-1, 0, 0, 3})}
+		DealerPPT: r.Chance(3, 4), GoodbyeReply: hcommon.Pick(r, []int{-1, 0, 0, 3})}
 	if r.Chance(1, 6) {
 		sc.Cfg.EventDelay = hcommon.Pick(r, []int{1, 5})
 	}
@@ -642,7 +601,7 @@ func normalise(sc Scenario) Scenario {
 	return roundTrip(sc)
 }
 
-// guardCloseRace (known finding F43): an API call started at the very instant the session
+// guardCloseRace (open finding F43, the only generator guard left): an API call started at the very instant the session
 // ends (Close, the GOODBYE that answers it, a router GOODBYE/ABORT, the transport closing)
 // can pass its Connected() check and then send on the channel Close() has closed: panic.
 // The shape is exercised by its own replay; here such calls are moved one ms later.
